@@ -161,7 +161,7 @@ def run(ctx):
     rep = ctx.rep
     rng = Rng(ctx.seed, 20)
     items = []
-    for i in range(ctx.budget(250, 20000)):
+    for i in range(ctx.budget(250, 8000)):
         r = rng.fork(i)
         text, lay, g = descs.structured(r)
         safely(rep, 'segment', check_segment, text)
